@@ -224,4 +224,15 @@ def r11_4(ctx: Ctx):
     return obs
 
 
-RULES = [("R11", r11, 12), ("R11.4", r11_4, 2)]
+def r11_5(ctx: Ctx):
+    """R11.5 an individual of a new generation that did not belong to the previous one is newly evaluated: fitness is carried over only for rows whose genome is unchanged in every coordinate, everything else is re-evaluated before it is recorded (R02.1, R02.2, R02.4)."""
+    from . import c02
+
+    out = []
+    for o in c02.r02_1(ctx) + c02.r02_2(ctx) + c02.r02_4(ctx):
+        o.rule = "R11.5"
+        out.append(o)
+    return out
+
+
+RULES = [("R11", r11, 12), ("R11.4", r11_4, 2), ("R11.5", r11_5, 19)]
